@@ -82,6 +82,8 @@ using AI = leaf<0, false, 0>;
 using AIsd = leaf<0, true, 0>;
 using MB = leaf<2, true, 0>;
 using NV = leaf<3, true, 0>;
+using NVnd = leaf<3, false, 0>;  // completes later on another thread, never with done
+using MBnd = leaf<2, false, 0>;
 template <class L>
 struct second;  // the same flavour on gate 1
 template <int K, bool SD>
@@ -227,7 +229,7 @@ struct Case { const char* name; void (*run)(World*); };
 #define U1(e, L) {#e "(" #L ")", &e<L>}
 #define UNARY(e) U1(e, AI), U1(e, AIsd), U1(e, MB), U1(e, NV)
 #define B1(e, A, B) {#e "(" #A "," #B ")", &e<A, B>}
-#define BINARY(e) B1(e, AI, AI), B1(e, AIsd, AIsd), B1(e, AI, NV), B1(e, NV, AI), B1(e, MB, MB), B1(e, AIsd, NV)
+#define BINARY(e) B1(e, AI, AI), B1(e, AIsd, AIsd), B1(e, AI, NV), B1(e, NV, AI), B1(e, MB, MB), B1(e, AIsd, NV), B1(e, AIsd, NVnd), B1(e, AIsd, MBnd)
 const Case kCases[] = {
     UNARY(e_leaf), UNARY(e_then), UNARY(e_upon_error), UNARY(e_upon_done), UNARY(e_materialize), UNARY(e_mat_demat), UNARY(e_wqv), UNARY(e_unstoppable),
     UNARY(e_lvwss), UNARY(e_lvwst), UNARY(e_lvw), UNARY(e_into_variant), UNARY(e_dao), UNARY(e_allocate), UNARY(e_via_inline), UNARY(e_on_inline),
